@@ -229,6 +229,13 @@ theorem PI.ensureCtx (h : PI c ex fl T C s) (a : Nat) (x : Actor) (hx : s.actor 
             refine ⟨p1, p2, fun i hi => ?_⟩
             cases hi
             rw [hth, if_pos rfl, chain_mkTh]; intro r hr; cases hr
+        capOK := fun j hj => by
+          rw [hth]; split
+          · rfl
+          · rename_i hne
+            refine h.capOK j ?_
+            have : j < (s.ths ++ [mkTh s.cfg a]).length := hj
+            rw [List.length_append, hn] at this; simp at this; omega
         ord := fun hg0 hr0 hp => by
           have o := h.ord hg0 hr0 (hprem hp)
           exact {
@@ -271,7 +278,7 @@ theorem PI.enq {a : Nat} (h : PI c (some a) fl T C s) (x : Actor) (hx : s.actor 
     (hfit : ∀ r ∈ chain (s.th ci), r.ts ≤ st.ts) (f : Th → Th)
     (hf : ∀ t, t = s.th ci → (f t).buf = t.buf ∧ (f t).qStmts = t.qStmts ++ [st] ∧ (f t).accepted = t.accepted ++ [st] ∧
       (f t).q.wpos = t.q.wpos + st.size ∧ (f t).q.wHist.headD 0 = t.q.wpos + st.size ∧ (f t).q.rpos = t.q.rpos ∧
-      (f t).valid = t.valid ∧ (f t).q.wcache = t.q.wcache) :
+      (f t).valid = t.valid ∧ (f t).q.wcache = t.q.wcache ∧ (f t).q.cap = t.q.cap) :
     PI c (some a) fl T C (s.setTh ci f) := by
   have hf := hf _ rfl
   have hchain : chain (f (s.th ci)) = chain (s.th ci) ++ [st] := by
@@ -310,7 +317,7 @@ theorem PI.enq {a : Nat} (h : PI c (some a) fl T C s) (x : Actor) (hx : s.actor 
       · rw [h1]; exact h.qc j
       · rw [h1]
         have q0 := h.qc j
-        obtain ⟨_, f2, _, f4, f5, f6, _, f8⟩ := hf
+        obtain ⟨_, f2, _, f4, f5, f6, _, f8, _⟩ := hf
         refine ⟨by rw [f4, f5], ?_, ?_, ?_⟩
         · rw [f5, f6, f2, List.map_append, List.sum_append, q0.wpos, q0.sum]; simp; omega
         · rw [f2]; intro r hr
@@ -335,6 +342,11 @@ theorem PI.enq {a : Nat} (h : PI c (some a) fl T C s) (x : Actor) (hx : s.actor 
       · rw [h1]; exact r2
       · rw [h1, hf.2.2.2.2.2.2.1]; exact r2
     ctxLt := fun b y i hy hi => by rw [length_setTh]; exact h.ctxLt b y i hy hi
+    capOK := fun j hj => by
+      rw [length_setTh] at hj
+      rcases hcases j with h1 | ⟨rfl, h1⟩
+      · rw [h1]; exact h.capOK j hj
+      · rw [h1, hf.2.2.2.2.2.2.2.2]; exact h.capOK j hj
     pend := fun b y r hy hb hpd => by
       obtain ⟨p1, p2, p3⟩ := h.pend b y r hy hb hpd
       refine ⟨p1, p2, fun i hi => ?_⟩
@@ -381,11 +393,12 @@ theorem PI.tryEnq {a : Nat} (h : PI c (some a) fl T C s) (x : Actor) (hx : s.act
     apply h.enq x hx ci hctx { st with enqAt := s.now } hts hsz rfl hfit
     intro t ht
     have f1 := qFinishCommit_fields s.cfg (qPrepareWrite s.cfg (s.th ci).q st.size).1 st.size
-    refine ⟨rfl, rfl, rfl, ?_, ?_, ?_, rfl, ?_⟩
+    refine ⟨rfl, rfl, rfl, ?_, ?_, ?_, rfl, ?_, ?_⟩
     · show (qFinishCommit _ _ _).wpos = _; rw [f1.1, f2.1, ht]
     · show (qFinishCommit _ _ _).wHist.headD 0 = _; rw [f1.2.1, f2.1, ht]; rfl
     · show (qFinishCommit _ _ _).rpos = _; rw [f1.2.2.1, f2.2.2.1, ht]
-    · show (qFinishCommit _ _ _).wcache = _; rw [f1.2.2.2, f2.2.2.2, ht]
+    · show (qFinishCommit _ _ _).wcache = _; rw [f1.2.2.2.1, f2.2.2.2.1, ht]
+    · show (qFinishCommit _ _ _).cap = _; rw [f1.2.2.2.2, f2.2.2.2.2, ht]
   · have hf : ThEq (s.th ci) ((fun t : Th => { t with q := (qPrepareWrite s.cfg (s.th ci).q st.size).1 }) (s.th ci)) :=
       ThEq.ofQ' _ _ f2
     exact ⟨h.setTh_frame ci _ hf, rfl, rfl, fun _ => rfl, fun _ i => chain_setTh_frame s ci _ hf i⟩
@@ -468,11 +481,11 @@ theorem PI.enqFlow (h : PI c none fl T C s) (a : Nat) (x : Actor) (hx : s.actor 
     simp only [Bool.false_eq_true, if_false]
     split
     · split
-      · exact hnone _ (hQb _ _ hQ2 (fun t => ⟨rfl, rfl, rfl, rfl, rfl, rfl, rfl, .inl rfl⟩))
-      · exact hretry _ (hQb _ _ hQ2 (fun t => ⟨rfl, rfl, rfl, rfl, rfl, rfl, rfl, .inl rfl⟩))
+      · exact hnone _ (hQb _ _ hQ2 (fun t => ⟨rfl, rfl, rfl, rfl, rfl, rfl, rfl, .inl rfl, rfl⟩))
+      · exact hretry _ (hQb _ _ hQ2 (fun t => ⟨rfl, rfl, rfl, rfl, rfl, rfl, rfl, .inl rfl, rfl⟩))
     · apply hretry
       split
-      · exact hQb _ _ hQ2 (fun t => ⟨rfl, rfl, rfl, rfl, rfl, rfl, rfl, .inl rfl⟩)
+      · exact hQb _ _ hQ2 (fun t => ⟨rfl, rfl, rfl, rfl, rfl, rfl, rfl, .inl rfl, rfl⟩)
       · exact hQ2
 
 theorem stmtSize_pos (c : Cfg) (hc : 0 < c.hdr) (k : Kind) (id len : Nat) (dyn : Bool) (gid : Nat) :
@@ -579,6 +592,9 @@ theorem PI.invalidate (h : PI c ex fl T C s) (i : Nat) (hno : ∀ b y, s.actor b
     pend := fun b y r hy hb hpd => by
       obtain ⟨p1, p2, p3⟩ := h.pend b y r hy hb hpd
       exact ⟨p1, p2, fun j hj => by rw [hch]; exact p3 j hj⟩
+    capOK := fun j hj => by
+      rw [length_setTh] at hj
+      rcases hcases j with h1 | ⟨rfl, h1⟩ <;> rw [h1] <;> exact h.capOK _ hj
     ord := fun hg0 hr0 hp => by
       have o := h.ord hg0 hr0 (fun j r hr => hp j r (by rw [hacc]; exact hr))
       exact {
